@@ -215,6 +215,9 @@ type Net struct {
 	pnames      map[string]string
 	injStats    *InjStats
 	solo        *soloBlocks
+	devMode     bool
+	decision    int
+	decisions   []int // number of alternatives at each scheduling decision (reference runs)
 }
 
 type altBlock struct {
@@ -672,6 +675,14 @@ func (nt *Net) Run() *Result {
 			nt.discard(n)
 		}
 	}
+	for _, r := range sc.Rules {
+		if r.Kind == "dev" {
+			nt.devMode = true
+		}
+	}
+	if sc.Mode == "decisions" {
+		nt.devMode = true
+	}
 	maxSteps := sc.MaxSteps
 	if maxSteps == 0 {
 		maxSteps = 4000
@@ -758,6 +769,11 @@ func (nt *Net) allDone() bool {
 // modified by the active rules. timeouts=true: quiescent sweep, fire the newest
 // scheduled timeout if the node has nothing else.
 func (nt *Net) stepDefault(n *Node, timeouts bool) bool {
+	if nt.devMode && nt.rulesOn {
+		if done, res := nt.stepDeviation(n); done {
+			return res
+		}
+	}
 	// early-timeout rules fire before anything else
 	if nt.rulesOn && !nt.atTarget(n) {
 		if i := nt.earlyTimeout(n); i >= 0 {
@@ -990,4 +1006,99 @@ func (nt *Net) maybeInject(n *Node) {
 	}
 	nt.Trace = append(nt.Trace, fmt.Sprintf("-- n%d reached state %q: injecting %s cases --", n.Idx, sp.State, sp.Family))
 	nt.runInjections(n)
+}
+
+// ---- delay-bounded scheduling: "dev" rules pick a non-default input at one
+// numbered scheduling decision of the default schedule.
+
+type devOpt struct {
+	kind inputKind
+	idx  int // pending index / timeout index
+	skip bool
+}
+
+// devOptions lists, in canonical order, the inputs node n could take now other
+// than the default one: its own queue head, every other pending delivery that is
+// not withheld by a rule (acceptable or still deferred = early delivery), every
+// armed timeout (newest first), and doing nothing this sweep.
+func (nt *Net) devOptions(n *Node) []devOpt {
+	var opts []devOpt
+	defaultIsOwn := len(n.own) > 0
+	if !defaultIsOwn {
+		// default = first acceptable pending; alternatives start after it
+	}
+	firstAcceptable := -1
+	for i, d := range n.pending {
+		if nt.withheld(n, d.e) {
+			continue
+		}
+		ok, deferred := nt.acceptable(n, d.e)
+		if !ok && !deferred {
+			continue
+		}
+		if ok && firstAcceptable < 0 && !defaultIsOwn {
+			firstAcceptable = i
+			continue // this is the default
+		}
+		opts = append(opts, devOpt{kind: inPeer, idx: i})
+	}
+	if !nt.atTarget(n) {
+		p := n.ticker.Pending()
+		for i := len(p) - 1; i >= 0; i-- {
+			opts = append(opts, devOpt{kind: inTimeout, idx: i})
+		}
+	}
+	opts = append(opts, devOpt{skip: true})
+	return opts
+}
+
+// stepDeviation handles one scheduling decision in dev mode. Returns done=true
+// if it acted (res = progress flag for the sweep).
+func (nt *Net) stepDeviation(n *Node) (done bool, res bool) {
+	// is there a default input at all?
+	hasDefault := len(n.own) > 0
+	if !hasDefault {
+		for _, d := range n.pending {
+			if nt.withheld(n, d.e) {
+				continue
+			}
+			if ok, _ := nt.acceptable(n, d.e); ok {
+				hasDefault = true
+				break
+			}
+		}
+	}
+	if !hasDefault {
+		return false, false
+	}
+	k := nt.decision
+	nt.decision++
+	opts := nt.devOptions(n)
+	nt.decisions = append(nt.decisions, len(opts))
+	for i, r := range nt.Sc.Rules {
+		if r.Kind != "dev" || r.K != k {
+			continue
+		}
+		if r.Delay < 0 || r.Delay >= len(opts) {
+			return false, false
+		}
+		nt.fired[i]++
+		o := opts[r.Delay]
+		switch {
+		case o.skip:
+			nt.Trace = append(nt.Trace, fmt.Sprintf("n%d skips its turn (decision %d)", n.Idx, k))
+			return true, true
+		case o.kind == inPeer:
+			d := n.pending[o.idx]
+			n.pending = append(n.pending[:o.idx:o.idx], n.pending[o.idx+1:]...)
+			nt.Trace = append(nt.Trace, fmt.Sprintf("decision %d: non-default delivery", k))
+			nt.step(n, inPeer, d, 0)
+			return true, true
+		case o.kind == inTimeout:
+			nt.Trace = append(nt.Trace, fmt.Sprintf("decision %d: timeout before pending input", k))
+			nt.step(n, inTimeout, nil, o.idx)
+			return true, true
+		}
+	}
+	return false, false
 }
